@@ -177,6 +177,11 @@ def run(ck: Checker):
             if isinstance(n, ast.Dict) and any(isinstance(k, ast.Constant) and k.value == 'incref' for k in n.keys):
                 bad.append(f'{g.qualname} L{n.lineno}')
     ck.ob('C13-3', bp.method('__reduce__'), (bp.method('__reduce__').node.lineno, 'rebuild kwds'), not bad, 'no __reduce__ asks the rebuild side for incref=False' if not bad else f'`incref` is put into the rebuild kwds at {bad}')
+    # ------------------------------------------------------------------ C13-6
+    ck.rule('C13-6', 'a reference is given back to the server it was taken from: every function that has the token (constructor, finaliser `_decref`, AutoProxy) looks the server up by `token.address`, never "whatever server runs in this process" — a proxy of manager A nested in a container hosted by manager B would otherwise send its decref to B, and A\'s object is never released (AGREE)', minimum=2)
+    from .c14 import check_shortcut_address
+
+    check_shortcut_address(ck, 'C13-6')
     # ------------------------------------------------------------------ C13-4
     check_create_bookkeeping(ck, 'C13-4')
     srv = mod.cls('Server')
